@@ -34,19 +34,22 @@ func Dur() FieldOpt { return func(f *ir.Field) { f.Kind = ir.KDuration; f.StdDur
 func StdDurInt() FieldOpt {
 	return func(f *ir.Field) { f.Kind = ir.KScalar; f.Scalar = ir.Int64; f.StdDur = true }
 }
-func Rep() FieldOpt               { return func(f *ir.Field) { f.Card = ir.Repeated } }
-func MapOf() FieldOpt             { return func(f *ir.Field) { f.Card = ir.Map } }
-func NonNull() FieldOpt           { return func(f *ir.Field) { f.Nullable = ir.B(false) } }
-func Null() FieldOpt              { return func(f *ir.Field) { f.Nullable = ir.B(true) } }
-func Embed() FieldOpt             { return func(f *ir.Field) { f.Embed = true; f.JSONTag = ir.S("") } }
+func Rep() FieldOpt     { return func(f *ir.Field) { f.Card = ir.Repeated } }
+func MapOf() FieldOpt   { return func(f *ir.Field) { f.Card = ir.Map } }
+func NonNull() FieldOpt { return func(f *ir.Field) { f.Nullable = ir.B(false) } }
+func Null() FieldOpt    { return func(f *ir.Field) { f.Nullable = ir.B(true) } }
+func Embed() FieldOpt   { return func(f *ir.Field) { f.Embed = true; f.JSONTag = ir.S("") } }
+
 // EmbedTag is an embedded message field that carries a non-empty json tag (still flattened).
-func EmbedTag(tag string) FieldOpt { return func(f *ir.Field) { f.Embed = true; f.JSONTag = ir.S(tag) } }
-func Cast(t string) FieldOpt      { return func(f *ir.Field) { f.CastType = t } }
-func Custom(t string) FieldOpt    { return func(f *ir.Field) { f.CustomType = t } }
-func JSON(t string) FieldOpt      { return func(f *ir.Field) { f.JSONTag = ir.S(t) } }
-func In(oneof int) FieldOpt       { return func(f *ir.Field) { f.Oneof = oneof } }
-func Cmt(c string) FieldOpt       { return func(f *ir.Field) { f.Comment = c; f.HasComment = true } }
-func KeyT(s ir.Scalar) FieldOpt   { return func(f *ir.Field) { f.MapKey = s } }
+func EmbedTag(tag string) FieldOpt {
+	return func(f *ir.Field) { f.Embed = true; f.JSONTag = ir.S(tag) }
+}
+func Cast(t string) FieldOpt    { return func(f *ir.Field) { f.CastType = t } }
+func Custom(t string) FieldOpt  { return func(f *ir.Field) { f.CustomType = t } }
+func JSON(t string) FieldOpt    { return func(f *ir.Field) { f.JSONTag = ir.S(t) } }
+func In(oneof int) FieldOpt     { return func(f *ir.Field) { f.Oneof = oneof } }
+func Cmt(c string) FieldOpt     { return func(f *ir.Field) { f.Comment = c; f.HasComment = true } }
+func KeyT(s ir.Scalar) FieldOpt { return func(f *ir.Field) { f.MapKey = s } }
 
 // M builds a message and numbers its fields 1..n.
 func M(name string, fields ...*ir.Field) *ir.Message {
